@@ -487,11 +487,26 @@ def np_call(ev, name, args, kwargs, node):
                 return App("concat", flat, _kw(ev, kwargs))
         return App("concat_seq", (as_v(ev, x),), _kw(ev, kwargs))
     if name in ("empty", "zeros", "ones"):
-        return App(name, (as_v(ev, arg(0, "shape")),))
+        dt = kwargs.get("dtype", arg(1) if len(A) > 1 else None)
+        kw = []
+        if dt is not None and not (isinstance(dt, Const) and dt.value is None):
+            from .evalr import ExtV
+            last = dt.dotted.split(".")[-1] if isinstance(dt, ExtV) else (dt.value if isinstance(dt, Const) and isinstance(dt.value, str) else None)
+            if last not in ("float", "float64", "double", "longdouble", "f8", "d"):
+                kw = [("dtype", Const("int" if last in ("int", "int64", "intp", "int32", "i8") else "bool" if last in ("bool", "bool_") else "other"))]
+        return App(name, (as_v(ev, arg(0, "shape")),), kw)
     if name == "full":
         return App("full", (as_v(ev, arg(0, "shape")), as_v(ev, arg(1, "fill_value"))))
     if name in ("zeros_like", "empty_like", "ones_like"):
-        return App(name, (as_v(ev, arg(0)),))
+        kw = []
+        if "shape" in kwargs:
+            kw.append(("shape", as_v(ev, kwargs["shape"])))
+        dt = kwargs.get("dtype")
+        if dt is not None and not (isinstance(dt, Const) and dt.value is None):
+            from .evalr import ExtV
+            last = dt.dotted.split(".")[-1] if isinstance(dt, ExtV) else None
+            kw.append(("dtype", Const("float" if last in ("float", "float64", "double") else "other")))
+        return App(name, (as_v(ev, arg(0)),), kw)
     if name == "full_like":
         return App("full_like", (as_v(ev, arg(0)), as_v(ev, arg(1, "fill_value"))))
     if name in ("maximum", "minimum", "fmax", "fmin"):
@@ -818,6 +833,9 @@ def shape_of(v):
     """Shape tuple (Tup, possibly with Star packs) when derivable from the term."""
     v = strip_fresh(v)
     while isinstance(v, App) and v.fn in ("store", "fresh", "asarray", "zeros_like", "empty_like", "ones_like", "full_like", "after_loop", "carried") and v.args:
+        if v.fn.endswith("_like") and v.kwd("shape") is not None:
+            sh = v.kwd("shape")
+            return sh if isinstance(sh, Tup) else (Tup([sh]) if is_const(sh) else None)
         v = strip_fresh(v.args[0])
     if isinstance(v, App) and v.fn in ("empty", "zeros", "ones", "full"):
         sh = v.args[0]
